@@ -15,7 +15,10 @@ observed on
   * a real pipeline: `Waves(delta).apply_ctf(ctf)`; the DFT of the result is the kernel,
   * the complete CTF (aperture, temporal and spatial envelope switched on): wherever it transmits (> 0.05) its phase
     must still be the aberration phase,
-  * ensembles: one coefficient given as a distribution; every member is compared with the scalar oracle.
+  * ensembles: one or two coefficients given as distributions (uniform, Gaussian with 'intensity' / 'amplitude'
+    normalisation, user-weighted); every member must be w * exp(-2 pi i chi / lambda) with w the product of the
+    quadrature weights of the *coefficient* distributions, recomputed here from the Gaussian formula; weights of
+    focal-spread / angular-spread / cutoff distributions of a CTF must not enter (zero angle is transmitted with 1).
 
 Metamorphic clause (independent of the chi model): kernel[all phi_nm + delta](alpha, phi) == kernel(alpha, phi - delta).
 
@@ -33,12 +36,14 @@ RULE = ("fixed: each of the 25 polar symbols alone, each of the 12 (C_nm, phi_nm
         "[0.01, 60] rad with random sign (so that every term matters), angles in [-7, 7] rad, energies 20 keV-1 MeV, "
         "anisotropic odd/even/size-1 grids, names drawn from symbols and aliases, setting route drawn from "
         "kwargs/dict/attribute/set_aberrations/mixed, class Aberrations or CTF, precision float64/float32; scherzer cases; "
-        "ensemble cases; non-trivial = at least one magnitude coefficient is non-zero and the maximal phase exceeds 0.05 rad; "
+        "ensemble cases with 1-2 uniform / Gaussian-weighted (intensity, amplitude) / user-weighted coefficient distributions and "
+        "complete CTFs whose focal spread / angular spread / cutoff are such distributions; non-trivial = at least one magnitude coefficient is non-zero and the maximal phase exceeds 0.05 rad; "
         "distinct = distinct case signature")
 CLAUSES = ["symbol-set", "stored-coefficient", "alias-get", "defocus-is-minus-C10", "unset-are-zero", "grid-kernel",
            "explicit-kernel", "alpha-zero-is-one", "phi-pm-pi", "rotation-metamorphic", "rotation-oracle", "apply-kernel",
            "scherzer", "ensemble-member-kernel", "grid-kernel-f32", "explicit-kernel-f32", "rotation-metamorphic-f32",
-           "rotation-oracle-f32", "full-ctf-phase", "full-ctf-phase-f32"]
+           "rotation-oracle-f32", "full-ctf-phase", "full-ctf-phase-f32", "full-ctf-dc-is-one",
+           "weighted-ensemble-member-kernel"]
 QUICK = dict(n=420, time=40)
 THOROUGH = dict(n=24000, time=300, shards=16)
 ASSUMPTIONS = ["wavelength taken from CODATA-2014 closed form (checked against abTEM by C24)",
@@ -116,6 +121,53 @@ def grid_amax(gpts, sampling, lam):
     return float(a.max())
 
 
+# --------------------------------------------------------------------------- distributions (JSON <-> abTEM, reference weights)
+def rand_dist(rng, center, scale, nonneg=False, p_weighted=0.7):
+    """JSON description of a 1-4 member distribution spanning about center +- scale (scale > 0).
+
+    {"dist": [lo, hi, n]}                                      uniform, unit weights
+    {"gauss": [std, n, center, limit, normalize, ens_mean]}    abtem.distributions.gaussian (weighted)
+    {"values": [...], "weights": [...]}                        abtem.distributions.from_values with weights in (0, 1]
+    """
+    n = int(rng.integers(1, 5))
+    scale = float(abs(scale)) or 1.0
+    center = float(center)
+    if nonneg and center - 1.001 * scale < 0:
+        center = 1.001 * scale          # every member stays >= 0 also after rounding
+    k = rng.random()
+    if k >= p_weighted:
+        return {"dist": [center - scale, center + scale, n]}
+    if k < 0.75 * p_weighted:
+        limit = float(rng.choice([1.0, 2.0, 3.0]))
+        return {"gauss": [scale / limit, n, center, limit, str(rng.choice(["intensity", "amplitude"])),
+                          bool(rng.random() < 0.5)]}
+    vals = sorted(float(center + scale * u) for u in rng.uniform(-1, 1, n))
+    return {"values": vals, "weights": [float(w) for w in rng.uniform(0.05, 1.0, n)]}
+
+
+def dist_from_json(x):
+    """(abTEM distribution, member values, reference weights) -- values and weights are computed here, not read back."""
+    import abtem
+    if "dist" in x:
+        lo, hi, n = x["dist"]
+        return abtem.distributions.uniform(lo, hi, int(n)), np.linspace(lo, hi, int(n)), np.ones(int(n))
+    if "gauss" in x:
+        std, n, center, limit, normalize, mean = x["gauss"]
+        obj = abtem.distributions.gaussian(standard_deviation=std, num_samples=int(n), center=center, sampling_limit=limit,
+                                           normalize=normalize, ensemble_mean=bool(mean))
+        v = np.linspace(center - limit * std, center + limit * std, int(n)) if int(n) > 1 else np.array([float(center)])
+        w = np.exp(-0.5 * ((v - center) / std) ** 2)
+        w = w / math.sqrt(float((w ** 2).sum())) if normalize == "intensity" else w / float(w.sum())
+        return obj, v, w
+    v = np.asarray(x["values"], dtype=float)
+    w = np.asarray(x["weights"], dtype=float)
+    return abtem.distributions.from_values(v.copy(), weights=w.copy()), v, w
+
+
+def is_dist(x):
+    return isinstance(x, dict)
+
+
 # --------------------------------------------------------------------------- generator
 def _rand_grid(rng):
     k = rng.random()
@@ -182,17 +234,23 @@ def gen(rng, tier):
                     word=str(rng.choice(["scherzer", "Scherzer", "SCHERZER"])), coeffs=coeffs,
                     names=_names(rng, coeffs, 0.3), how=str(rng.choice(["kwargs", "dict", "set_aberrations"])))
         return case
-    if k < 0.18:
-        # one magnitude coefficient is a distribution
-        sym = str(rng.choice(MAGNITUDES))
-        others = [s for s in SYMBOLS if s != sym and rng.random() < 0.2]
-        n, m = nm(sym)
-        if m and ("phi%d%d" % (n, m)) not in others:
-            others.append("phi%d%d" % (n, m))
+    if k < 0.22:
+        # one or two coefficients (magnitudes or angles) are distributions: uniform, Gaussian-weighted or user-weighted
+        syms = [str(x) for x in rng.choice(SYMBOLS, size=int(rng.choice([1, 1, 2])), replace=False)]
+        others = [x for x in SYMBOLS if x not in syms and rng.random() < 0.2]
+        for sym in syms:
+            n, m = nm(sym)
+            partner = ("phi%d%d" % (n, m)) if sym in MAGNITUDES else ("C%d%d" % (n, m))
+            if m and partner not in others and partner not in syms:
+                others.append(partner)
         coeffs = _rand_coeffs(rng, others, amax, lam)
-        lo, hi = sorted(_rand_coeffs(rng, [sym], amax, lam)[sym] * f for f in (1.0, float(rng.uniform(-1, 0.9))))
-        case.update(kind="ensemble", dist_symbol=sym, dist=[lo, hi, int(rng.integers(1, 5))], coeffs=coeffs,
-                    names=_names(rng, coeffs, 0.3), dist_name=ALIAS_OF[sym] if (rng.random() < 0.3 and sym != "C10") else sym)
+        dists = []
+        for sym in syms:
+            c = _rand_coeffs(rng, [sym], amax, lam)[sym]
+            scale = abs(c) * float(rng.uniform(0.05, 1.5)) if sym in MAGNITUDES else float(rng.uniform(0.05, 2.0))
+            name = ALIAS_OF[sym] if rng.random() < 0.3 else sym
+            dists.append({"symbol": sym, "name": name, "dist": rand_dist(rng, c, scale)})
+        case.update(kind="ensemble", dists=dists, coeffs=coeffs, names=_names(rng, coeffs, 0.3))
         return case
     # random subsets
     r = rng.random()
@@ -221,6 +279,14 @@ def gen(rng, tier):
         case["full"] = {"cutoff": float(rng.uniform(0.3, 1.3) * amax * 1e3), "soft": bool(rng.random() < 0.5),
                         "focal": float(rng.choice([0.0, rng.uniform(0, 40)])),
                         "angular": float(rng.choice([0.0, rng.uniform(0, 1.0)]))}
+        # any of the three may be a (weighted) distribution: their weights must not enter the kernel
+        if rng.random() < 0.4:
+            case["full"]["focal"] = rand_dist(rng, float(rng.uniform(5, 40)), float(rng.uniform(1, 30)))
+        if rng.random() < 0.25:
+            case["full"]["angular"] = rand_dist(rng, float(rng.uniform(0.1, 1.0)), float(rng.uniform(0.05, 0.5)), nonneg=True)
+        if rng.random() < 0.25:
+            c0 = case["full"]["cutoff"]
+            case["full"]["cutoff"] = rand_dist(rng, c0, c0 * float(rng.uniform(0.05, 0.6)), nonneg=True)
     return case
 
 
@@ -274,6 +340,23 @@ def fixed_cases(tier):
             out.append(mk(dict(full), {sym: ALIAS_OF[sym] for sym in full}, "float64", how, cls,
                           **({"full": {"cutoff": 0.6 * amax * 1e3, "soft": how != "dict", "focal": 8.0, "angular": 0.2}}
                              if cls == "CTF" else {})))
+    # weighted (Gaussian / user-weighted) distributions of coefficients, and of the envelope/aperture parameters of a CTF
+    c10 = val("C10", 1)
+    for i, (cls, prec, norm) in enumerate((("Aberrations", "float64", "intensity"), ("CTF", "float64", "amplitude"),
+                                           ("CTF", "float32", "intensity"))):
+        out.append({"energy": en, "gpts": g, "sampling": s, "precision": prec, "cls": cls, "how": HOWS[i], "pt_seed": 77 + i,
+                    "delta": 0.3, "apply": False, "kind": "ensemble", "coeffs": {"C12": val("C12", 2), "C30": val("C30", 3)},
+                    "names": {"C12": "astigmatism", "C30": "C30"},
+                    "dists": [{"symbol": "C10", "name": ["C10", "defocus", "C10"][i],
+                               "dist": {"gauss": [abs(c10) / 4, 3, c10, 2.0, norm, i == 1]}},
+                              {"symbol": "phi12", "name": "phi12",
+                               "dist": [{"values": [0.2, 0.9], "weights": [0.3, 1.0]}, {"dist": [0.1, 1.1, 2]},
+                                        {"gauss": [0.3, 2, 0.5, 1.0, "amplitude", False]}][i]}]})
+    for i, prec in enumerate(("float64", "float32")):
+        out.append(mk({"C10": c10, "C30": val("C30", 3)}, {"C10": "C10", "C30": "Cs"}, prec, "kwargs", "CTF",
+                      full={"cutoff": {"gauss": [0.05 * amax * 1e3, 3, 0.6 * amax * 1e3, 2.0, "intensity", True]}, "soft": i == 0,
+                            "focal": {"gauss": [6.0, 3, 25.0, 3.0, ["intensity", "amplitude"][i], True]},
+                            "angular": {"gauss": [0.1, 2, 0.5, 2.0, "amplitude", False]}}))
     out.append({"energy": 80e3, "gpts": [8, 8], "sampling": [0.1, 0.1], "precision": "float64", "cls": "CTF", "how": "kwargs",
                 "pt_seed": 5, "delta": 0.4, "apply": True, "kind": "scherzer", "cs": 1.3e7, "cs_name": "Cs",
                 "word": "scherzer", "coeffs": {}, "names": {}})
@@ -402,23 +485,35 @@ def _rotation(ctx, case, coeffs, lam, got_e, pts, tol):
 
 
 def _full_ctf(ctx, case, coeffs, lam, tol):
-    """CTF with aperture and envelopes: wherever it transmits, its phase is still exp(-2 pi i chi / lambda)."""
+    """CTF with aperture and envelopes (scalars or weighted distributions): wherever a member transmits, its phase is
+    still exp(-2 pi i chi / lambda); the weights of focal-spread / angular-spread / cutoff distributions do not enter."""
     from abtem import transfer
     full = case["full"]
     g, s = tuple(case["gpts"]), tuple(case["sampling"])
-    ctf = transfer.CTF(semiangle_cutoff=full["cutoff"], soft=full["soft"], focal_spread=full["focal"],
-                       angular_spread=full["angular"], aberration_coefficients=coeffs, energy=case["energy"], gpts=g, sampling=s)
+    args, shape = {}, ()
+    for key in ("angular", "focal", "cutoff"):      # ensemble axes of a CTF come in this order
+        if is_dist(full[key]):
+            args[key], v, _ = dist_from_json(full[key])
+            shape += (len(v),)
+        else:
+            args[key] = full[key]
+    ctf = transfer.CTF(semiangle_cutoff=args["cutoff"], soft=full["soft"], focal_spread=args["focal"],
+                       angular_spread=args["angular"], aberration_coefficients=coeffs, energy=case["energy"], gpts=g, sampling=s)
     got = np.asarray(ctf._evaluate_kernel()).astype(np.complex128)
+    if not ctx.expect(got.shape == shape + g, "full-ctf-phase", what="shape", got=list(got.shape), want=list(shape + g)):
+        return
     alpha_g, phi_g = grid_angles(g, s, lam)
-    want = kernel_ref(coeffs, alpha_g, phi_g, lam)
+    want = np.broadcast_to(kernel_ref(coeffs, alpha_g, phi_g, lam), got.shape)
     mod = np.abs(got)
     mask = mod > 0.05
     ctx.monitor("full-ctf-transmitting-pixels", int(mask.sum()))
+    if shape:
+        ctx.monitor("full-ctf-ensemble-members", int(np.prod(shape)))
     if mask.any():
         sfx = "-f32" if case["precision"] == "float32" else ""
         ctx.close(got[mask] / mod[mask], want[mask], "full-ctf-phase" + sfx, rtol=0, atol=3 * tol, scale=1.0, full=full)
-    # an open pixel at zero angle: DC is transmitted with unit weight
-    ctx.close(got[0, 0], 1.0, "full-ctf-phase", rtol=0, atol=1e-6)
+    # zero angle: aperture open, both envelopes 1, chi = 0  ->  every member transmits DC with exactly unit weight
+    ctx.close(got[..., 0, 0], np.ones(shape), "full-ctf-dc-is-one", rtol=0, atol=1e-6, full=full)
 
 
 def _apply(ctx, case, obj, coeffs, lam, tol):
@@ -485,28 +580,34 @@ def check(ctx, case):
             return
 
         if case["kind"] == "ensemble":
-            sym = case["dist_symbol"]
-            lo, hi, num = case["dist"]
-            dist = abtem.distributions.uniform(lo, hi, num)
-            dname = case["dist_name"]
             items = [(names[s], _value_for(names[s], s, v)) for s, v in coeffs.items()]
-            items.insert(len(items) // 2, (dname, dist))
+            ref = {}
+            for j, d in enumerate(case["dists"]):
+                dobj, v, w = dist_from_json(d["dist"])
+                ref[d["symbol"]] = (v, w)
+                items.insert((len(items) * (j + 1)) // 3, (d["name"], -dobj if d["name"] == "defocus" else dobj))
             obj = _build(case, items, lam)
-            values = np.asarray(dist.values, dtype=float)
-            weights = np.asarray(dist.weights, dtype=float)
             got = np.asarray(obj._evaluate_kernel())
             g, s = case["gpts"], case["sampling"]
             alpha_g, phi_g = grid_angles(g, s, lam)
-            if not ctx.expect(got.shape == (len(values),) + tuple(g), "ensemble-member-kernel", shape=list(got.shape)):
+            labels = [a.label for a in obj.ensemble_axes_metadata]
+            if not ctx.expect(sorted(labels) == sorted(ref) and got.shape == tuple(len(ref[l][0]) for l in labels) + tuple(g),
+                              "ensemble-member-kernel", what="axes", labels=labels, shape=list(got.shape)):
                 return
-            # members are stored in float32 under float32 precision: the oracle uses the value the code can represent
-            for i, v in enumerate(values):
+            weighted = any("dist" not in d["dist"] for d in case["dists"])
+            for idx in np.ndindex(*got.shape[:-2]):
                 c = dict(coeffs)
-                c[sym] = float(v)
+                w = 1.0
+                for l, i in zip(labels, idx):
+                    c[l] = float(ref[l][0][i])
+                    w *= float(ref[l][1][i])
                 ps = phase_scale(c, float(alpha_g.max()), lam)
-                ctx.close(got[i], weights[i] * kernel_ref(c, alpha_g, phi_g, lam), "ensemble-member-kernel", rtol=0,
-                          atol=_tol(case, ps) * max(1.0, abs(weights[i])), scale=1.0, member=i)
+                # quadrature weights of coefficient distributions scale the member (and nothing else does)
+                ctx.close(got[idx], w * kernel_ref(c, alpha_g, phi_g, lam),
+                          "weighted-ensemble-member-kernel" if weighted else "ensemble-member-kernel", rtol=0,
+                          atol=_tol(case, ps) * w, scale=1.0, member=list(idx), weight=w)
                 ctx.nontrivial(ps > 0.05)
+            ctx.monitor("ensemble-members", int(np.prod(got.shape[:-2])))
             return
 
         # ---- subset
